@@ -142,6 +142,43 @@ def resolveCall (f : FVal) (nargs : Nat) : ResolveRes :=
     let numParams := if s.variadic then variadicCap else s.params.length
     if nargs > numParams then .tooManyArgs else .ok
 
+
+/-! ## set-up as a step on a reusable interpreter: the cached native-function table
+
+`setExecuteConfig` runs `initNativeFuncs` only while `p.nativeFuncs == nil`; `initNativeFuncs` validates every entry of
+`Config.Funcs` first and assigns the table only when all passed. (The table is sorted by name in Go; the order plays no role
+in what is stated about it.) -/
+
+abbrev Table := List (Bytes × Sig)
+
+/-- the validation loop of `initNativeFuncs`: the first entry that does not pass `checkNativeFunc` -/
+def checkAll : List (Bytes × FVal) → Option CheckErr
+  | [] => none
+  | (n, f) :: rest =>
+    match checkNativeFunc (isKeyword n) f with
+    | (.ok _, _) => checkAll rest
+    | (_, some e) => some e
+    | (_, none) => some .notFunc      -- unreachable: an error outcome always carries its class
+
+def buildTable (funcs : List (Bytes × FVal)) : Table :=
+  funcs.filterMap fun
+    | (n, .func s _) => some (n, s)
+    | _ => none
+
+/-- one `Execute` / `ExecuteContext`: set-up error (if any) and the cache afterwards -/
+def setupStep (cache : Option Table) (funcs : List (Bytes × FVal)) : Option CheckErr × Option Table :=
+  match cache with
+  | some t => (none, some t)                 -- `p.nativeFuncs != nil`: nothing is looked at
+  | none =>
+    match checkAll funcs with
+    | some e => (some e, none)               -- rejected: `p.nativeFuncs` is not assigned
+    | none => (none, some (buildTable funcs))
+
+/-- the cache after a history of calls -/
+def runHistory (cache : Option Table) : List (List (Bytes × FVal)) → Option Table
+  | [] => cache
+  | m :: rest => runHistory (setupStep cache m).2 rest
+
 /-! ## numbers: IEEE-754 bit patterns as `Nat` -/
 
 def bitLen : Nat → Nat := Nat.log2 ∘ (· * 2)   -- number of significant bits; bitLen 0 = 0
